@@ -72,6 +72,81 @@ def nearestEdge (n i : Nat) (nd : K) : Edge K :=
   else if nd < 1 / 2 then ⟨1, 0, i, i + 1⟩
   else ⟨0, 1, i, i + 1⟩
 
+/-! ### Edge programs (the data-shaped part, regenerated from the source on every run)
+
+`_compute_linear_weights_edge`, `_compute_nearest_weights_edge`, the index rule of
+`_NearestInterpolator._evaluate` and the clipping in `_find_indices` are straight-line
+sequences of masked array assignments.  `tools/extract/interp.py` translates them into the
+statement lists of `Gen/InterpEdges.lean`; `runEdge` executes such a list for one point.
+`Lemmas/Interp.lean` proves that the generated programs compute `linearEdge`, `nearestEdge`,
+`nearestIndex`, `findIndex` above, so every theorem is re-checked against what the source
+says. -/
+
+inductive Cmp | lt | le | gt | ge
+  deriving Repr, DecidableEq
+
+/-- A boolean mask `ndist <cmp> c`. -/
+structure Mask (K : Type) where
+  cmp : Cmp
+  c : K
+
+inductive WExpr (K : Type)
+  | oneMinus                           -- `1 - ndist`
+  | ident                              -- `ndist` / `np.copy(ndist)`
+  | whereC (m : Mask K) (a b : K)      -- `np.where(ndist <cmp> c, a, b)`
+
+inductive Tgt | wlo | whi
+  deriving Repr, DecidableEq
+
+inductive EStmt (K : Type)
+  | initW (t : Tgt) (e : WExpr K)              -- `w = <expr>`
+  | setW (t : Tgt) (m : Mask K) (c : K)        -- `w[mask] = c`
+  | addW (t : Tgt) (m : Mask K) (c : K)        -- `w[mask] += c`
+  | initEdge                                   -- `edge = [idcs, idcs + 1]`
+  | setEdge (hi : Bool) (m : Mask K) (v : Int) -- `edge[0|1][mask] = v` (negative: from the end)
+
+def Mask.eval (m : Mask K) (nd : K) : Bool :=
+  match m.cmp with
+  | .lt => decide (nd < m.c)
+  | .gt => decide (m.c < nd)
+  | .le => !decide (m.c < nd)
+  | .ge => !decide (nd < m.c)
+
+def WExpr.eval (nd : K) : WExpr K → K
+  | .oneMinus => 1 - nd
+  | .ident => nd
+  | .whereC m a b => if m.eval nd then a else b
+
+/-- Python index `v` into an axis of `n` nodes. -/
+def pyIndex (n : Nat) (v : Int) : Nat := if v < 0 then n - v.natAbs else v.toNat
+
+def EStmt.exec (n i : Nat) (nd : K) (s : Edge K) : EStmt K → Edge K
+  | .initW .wlo e => { s with wlo := e.eval nd }
+  | .initW .whi e => { s with whi := e.eval nd }
+  | .setW .wlo m c => if m.eval nd then { s with wlo := c } else s
+  | .setW .whi m c => if m.eval nd then { s with whi := c } else s
+  | .addW .wlo m c => if m.eval nd then { s with wlo := s.wlo + c } else s
+  | .addW .whi m c => if m.eval nd then { s with whi := s.whi + c } else s
+  | .initEdge => { s with elo := i, ehi := i + 1 }
+  | .setEdge false m v => if m.eval nd then { s with elo := pyIndex n v } else s
+  | .setEdge true m v => if m.eval nd then { s with ehi := pyIndex n v } else s
+
+/-- Execute an edge program for one point with cell index `i` and normalised distance `nd`. -/
+def runEdge (prog : List (EStmt K)) (n i : Nat) (nd : K) : Edge K :=
+  prog.foldl (fun s st => st.exec n i nd s) ⟨0, 0, 0, 0⟩
+
+/-- `_find_indices` with the extracted constants: `idcs = searchsorted(side) - off`,
+`idcs[idcs < lowB] = lowV`, `idcs[idcs > n - hiB] = n - hiV`. -/
+def findIndexWith (off lowB lowV hiB hiV : Int) (c : Nat → K) (n : Nat) (p : K) : Nat :=
+  let k : Int := (searchLeft c p n : Int) - off
+  let k := if k < lowB then lowV else k
+  let k := if k > (n : Int) - hiB then (n : Int) - hiV else k
+  k.toNat
+
+/-- `np.where(yi <cmp> c, i + a, i + b)` of `_NearestInterpolator._evaluate`. -/
+def nearestPickWith (m : Mask K) (a b : Nat) (i : Nat) (nd : K) : Nat :=
+  if m.eval nd then i + a else i + b
+
 /-- One grid axis: node count, coordinate vector, interpolation scheme. -/
 structure Axis (K : Type) where
   n : Nat
@@ -146,6 +221,23 @@ def nearestMesh {V : Type} (axes : List (Axis K)) (v : List Nat → V) (vecs : L
   (cartesian (List.zipWith (fun a vec => vec.map (nearestIndex a.c a.n)) axes vecs)).map v
 
 end Scalar
+
+/-- `_check_interp_input` for array-like (non-mesh) input of the given shape on a grid with `d`
+axes: `none` = `ValueError` ("bad input"), `some (isScalar, N)` = accepted as `N` points, the
+result being a Python scalar iff `isScalar`.  (1d: a scalar, `(n,)` or `(1, n)`; otherwise a
+single point `(d,)` or a point array `(d, n)`.) -/
+def classifyArrayInput (d : Nat) (shape : List Nat) : Option (Bool × Nat) :=
+  if d = 1 then
+    match shape with
+    | [] => some (true, 1)
+    | [n] => some (false, n)
+    | [m, n] => if m = 1 then some (false, n) else none
+    | _ => none
+  else
+    match shape with
+    | [m] => if m = d then some (true, 1) else none
+    | [m, n] => if m = d then some (false, n) else none
+    | _ => none
 
 /-! ### Sampling: dispatch of `sampling_function` / `_make_dual_use_func`
 
